@@ -87,6 +87,12 @@ def shards(tier):
         for mesh in (False, True):
             for gi in range(len(GRAPHS) + (0 if tier == "quick" else
                                            len(GRAPHS4))):
+                if tier != "quick" and mname == "2x2":
+                    # the heaviest family is split over the machine variants
+                    for vk in range(4):
+                        out.append(dict(part="A", machine=mname, mesh=mesh,
+                                        graph=gi, vk=vk))
+                    continue
                 out.append(dict(part="A", machine=mname, mesh=mesh, graph=gi))
     for k in range(16):
         out.append(dict(part="many", k=k))
@@ -372,6 +378,8 @@ def part_A(params, tier, acc):
     for (w, h, dcs, dls) in machine_variants(params["machine"],
                                              params["mesh"], tier):
         mi += 1
+        if "vk" in params and mi % 4 != params["vk"]:
+            continue
         n_extra = len(dls) - len(base_links(w, h, params["mesh"]))
         if gi >= len(GRAPHS) and (n_extra and w * h > 4 or
                                   (dcs and w * h > 6)):
